@@ -210,7 +210,7 @@ Example C18_witness_history :
     [ORand; OSample (UniformInt 1 6); OSampleN (Binomial 3 (1#2)) 2; OSampleN (Bernoulli (1#2)) 0;
      OSampleN (Bernoulli (1#2)) (-4); OSample (Geometric 1); OSample (Uniform 2 4); OSample (Binomial 0 (1#2))]
     [1#4; 1#2; 1#8; 5#8; 3#8; 7#8; 1#16; 3#4; 1#2]
-  = "X:1/4|I:4|A:[I:2;I:1]|A:[]|A:[]|I:1|X:6/2|E:InvalidParameterException#9"%string.
+  = "X:1/4@1|I:4@2|A:[I:2;I:1]@8|A:[]@8|A:[]@8|I:1@8|X:6/2@9|E:InvalidParameterException@9"%string.
 Proof. vm_compute. reflexivity. Qed.
 
 (* the hypotheses of the _partial clauses are jointly satisfiable: with log x := 1 - 1/x and
